@@ -78,7 +78,7 @@ func c04Decl(variant int, opts flags.Options) *decl.Decl {
 		{Field: "Ecb", Short: "e", Long: "ecb", Type: decl.TFuncIE},
 		{Field: "Upper", Short: "U", Long: "upper", Type: decl.TUpper},
 		{Field: "Picky", Short: "P", Long: "picky", Type: decl.TPicky},
-		{Field: "Choice", Short: "C", Long: "choice", Type: decl.TString, Choices: []string{"x", "y"}},
+		{Field: "Choice", Short: "C", Long: "choice", Type: decl.TString, Choices: []string{"x", "y"}, Env: "C04_CH"},
 		{Field: "Opt", Short: "O", Long: "opt", Type: decl.TString, Optional: "yes", OptionalVal: []string{"ov"}},
 		{Field: "Eacute", Short: "é", Long: "eacute", Type: decl.TBool},
 		{Field: "Five", Short: "5", Long: "five", Type: decl.TBool},
@@ -246,13 +246,17 @@ func init() {
 			}
 		}
 		if badEnvFirst {
-			os.Setenv("C04_INT", "not-a-number")
+			envKey, envVal, wantType := "C04_INT", "not-a-number", flags.ErrMarshal
+			if len(argv)%2 == 1 {
+				envKey, envVal, wantType = "C04_CH", "neither-x-nor-y", flags.ErrInvalidChoice // a value outside the option's choices
+			}
+			os.Setenv(envKey, envVal)
 			var w0, w1 int64
 			if c04cap != nil {
 				w0, w1 = c04cap.mark()
 			}
 			wr := runParser(b, cfg, nil, runOpts{})
-			os.Unsetenv("C04_INT")
+			os.Unsetenv(envKey)
 			if c04cap != nil && wr.Panic == nil {
 				wso, wse := c04cap.since(w0, w1)
 				checkWrites("bad-environment-default|", wr.Err, wso, wse)
@@ -262,8 +266,8 @@ func init() {
 				return
 			}
 			// (a declaration with a required option reports that one instead: both causes are present, no precedence is defined)
-			if fe, ok := wr.Err.(*flags.Error); !ok || (fe.Type != flags.ErrMarshal && fe.Type != flags.ErrRequired) {
-				c.Fail("bad-environment-default-not-ErrMarshal|"+errType(wr.Err), fmt.Sprint(wr.Err))
+			if fe, ok := wr.Err.(*flags.Error); !ok || (fe.Type != wantType && fe.Type != flags.ErrRequired) {
+				c.Fail("bad-environment-default-wrong-type|want-"+wantType.String()+"|"+errType(wr.Err), fmt.Sprint(wr.Err))
 				return
 			}
 			rezero(b)
@@ -322,7 +326,7 @@ func init() {
 		Setup:      c04Setup,
 		DevBound:   func(bool) int { return 2 },
 		Rule: "four declarations covering every option kind (flags, scalars, map, slice, four callback signatures incl. one that always returns an error, Unmarshaler, ValueValidator, choices on a string and on a bool flag, optional argument, non-ASCII and digit short names, " +
-			"interface-, array-, pointer-to-bool typed fields, a required option, a command with an int positional, an optional-argument option whose optional-value does not convert, a command whose only subcommand is hidden, an Unmarshaler with a value receiver, an integer with base 0 holding a value, a callback option left nil; the third declaration makes the command mandatory so that unknown words reach the unknown-command diagnosis (words of 31..33 and 64..65 characters included); the fourth is built through the API, has an executable command whose Execute returns an ErrHelp-typed error of its own, and two options (a string with a default, an int without) handed over with (*Group).AddOption; maps with named string key / value types and []*int are among the option types); option sets: None and Default with up to 2 of the 5 flags toggled (32 sets); as one more deviation the same parser first fails a parse because an environment default does not convert (must be ErrMarshal, printed exactly as PrintErrors prescribes) and is then used again; inputs: (i) every byte string of length <= 4 (quick) / <= 5 (thorough) " +
+			"interface-, array-, pointer-to-bool typed fields, a required option, a command with an int positional, an optional-argument option whose optional-value does not convert, a command whose only subcommand is hidden, an Unmarshaler with a value receiver, an integer with base 0 holding a value, a callback option left nil; the third declaration makes the command mandatory so that unknown words reach the unknown-command diagnosis (words of 31..33 and 64..65 characters included); the fourth is built through the API, has an executable command whose Execute returns an ErrHelp-typed error of its own, and two options (a string with a default, an int without) handed over with (*Group).AddOption; maps with named string key / value types and []*int are among the option types); option sets: None and Default with up to 2 of the 5 flags toggled (32 sets); as one more deviation the same parser first fails a parse because an environment default does not convert or is outside the option's choices (must be ErrMarshal / ErrInvalidChoice, printed exactly as PrintErrors prescribes) and is then used again; inputs: (i) every byte string of length <= 4 (quick) / <= 5 (thorough) " +
 			"over {- = a s x \" \\ 0xC3 0xA9 : 5} as a token alone, after -s, after a command word, after --; (ii) every vector of <= 2 tokens (thorough: <= 3 on the first and third declaration) over 78 pathological tokens; oracle: returns normally, error nil or typed as the CLM's fault says, " +
 			"stdout/stderr deltas exactly as PrintErrors prescribes; distinct = distinct (declaration, option set, error class, wrote stdout?, wrote stderr?, model fault)",
 		Assumptions:  []string{"os.Stdout / os.Stderr are swapped for files per worker process and offset deltas read per leaf", "declarations reflect.StructOf cannot build (unexported fields in positional structs) are outside the space"},
